@@ -997,7 +997,7 @@ impl Walrus {
         let mut entries_parsed = 0u32;
         let mut saw_tail = false;
 
-        for (plan_idx, read_plan) in plan.iter().enumerate() {
+        'plans: for (plan_idx, read_plan) in plan.iter().enumerate() {
             if entries.len() >= MAX_BATCH_ENTRIES {
                 break;
             }
@@ -1046,7 +1046,9 @@ impl Walrus {
                     .checked_add(data_size)
                     .unwrap_or(usize::MAX);
                 if next_total > max_bytes && !entries.is_empty() {
-                    break;
+                    // The budget is exhausted: stop the whole parse. Continuing with the next
+                    // planned range would deliver later entries and skip this one.
+                    break 'plans;
                 }
 
                 // Extract and verify data
